@@ -157,3 +157,47 @@ Fixpoint fexec (strict : bool) (n : nat) (st : fst_) (sched : list flabel)
   end.
 
 Definition flive (p : fpc) : bool := match p with FFin | FDead => false | _ => true end.
+
+(* ------------------------------------------------------------------------
+   pymap/backend/maildir/io.py: `async with Cls.with_write(path) as obj` --
+   _FileWriteWith, the layer through which UidList and Subscriptions use the
+   lock file:
+     __aenter__: lock = cls.write_lock(path); await lock.__aenter__();
+                 exists = file_exists; obj = file_read; obj._watched = True
+     __aexit__:  try:   if not exc_type and obj.touched:
+                            if not obj.empty: obj.file_write()      (temp file + os.rename)
+                            elif exists:      obj.file_delete()     (os.remove)
+                 finally: await lock.__aexit__(None, None, None)     (FileLock._unlock)
+   One run of the with-block is described by what happened in it. *)
+Inductive wact := WFlushWrite | WFlushDelete | WRelease.
+
+Definition wact_eqb (a b : wact) : bool :=
+  match a, b with
+  | WFlushWrite, WFlushWrite | WFlushDelete, WFlushDelete | WRelease, WRelease => true
+  | _, _ => false
+  end.
+
+Record wrun := mkWRun {
+  w_body_fails : bool;     (* the body raised (any exception, CancelledError included) *)
+  w_touched : bool;        (* obj.touched at exit *)
+  w_empty : bool;          (* obj.empty at exit *)
+  w_existed : bool;        (* the data file existed at entry *)
+  w_flush_fails : bool     (* file_write()/file_delete() raises (rename/remove/write error) *)
+}.
+
+Definition ww_flush (r : wrun) : list wact :=
+  if negb (w_body_fails r) && w_touched r then
+    if negb (w_empty r) then [WFlushWrite]
+    else if w_existed r then [WFlushDelete] else []
+  else [].
+
+(* what __aexit__ attempts, in order: the release is in a `finally` *)
+Definition ww_exit (r : wrun) : list wact := ww_flush r ++ [WRelease].
+
+(* does an exception leave the with-statement? *)
+Definition ww_raises (r : wrun) : bool :=
+  w_body_fails r || (match ww_flush r with [] => false | _ => w_flush_fails r end).
+
+(* the lock file after the with-statement; it was created at entry (Fresh) *)
+Definition ww_file_after (r : wrun) : fstate :=
+  if existsb (wact_eqb WRelease) (ww_exit r) then after_exit KW Fresh else Fresh.
